@@ -156,6 +156,40 @@ def run_k(framing, c, fill, trail, ka):
     return vio, res
 
 
+def run_repeat(framing, kind, ka):
+    """the same request several times on ONE protocol object, the inverter's registers unchanged: every one of the
+    byte-identical conforming answers must be accepted"""
+    world.reset()
+    pl = bytes((i * 5 + 1) & 0xFF for i in range(12))
+
+    def plan(k, req, now):
+        if framing == 'aa55':
+            return [(D0, ('data', wire.aa55_resp('0186', pl)))]
+        rq = wire.parse_request(req)
+        if rq['fn'] == 3:
+            return [(D0, ('data', wire.tcp_read_resp(req[:2], 0xF7, pl) if framing == 'tcp' else wire.rtu_read_resp(0xF7, pl)))]
+        x = rq['value'] if rq['fn'] == 6 else rq['count']
+        return [(D0, ('data', wire.tcp_write_resp(req[:2], 0xF7, rq['fn'], rq['reg'], x) if framing == 'tcp'
+                      else wire.rtu_write_resp(0xF7, rq['fn'], rq['reg'], x)))]
+    peer = PlanPeer(plan)
+    loop = KLoop(peer)
+    p = make_protocol('tcp' if framing == 'tcp' else 'udp', 1, 1, ka)
+    vio = []
+    for i in range(4):
+        if framing == 'aa55':
+            cmd = gp.Aa55ProtocolCommand("010600", "0186")
+        else:
+            cmd = p.read_command(0x891C, 6) if kind == 'read' else p.write_command(47510, 1234) if kind == 'write' \
+                else p.write_multi_command(47515, bytes(8))
+        n0 = len(peer.sent)
+        st, res = loop.run(_exec(cmd, p))
+        if st == 'hang' or res[0] != 'ok' or len(peer.sent) - n0 != 1:
+            vio.append((f'identical-answer-accepted-again/{framing}/{kind}',
+                        f'request #{i + 1} (same as before, same answer): {res[:2]} after {len(peer.sent) - n0} transmissions'))
+            break
+    return vio
+
+
 def k_cases(tier):
     counts = (1, 2, 61, 125)
     for framing in ('rtu', 'tcp', 'aa55'):
@@ -195,6 +229,12 @@ def run(tier, seed, rep):
         for key, cause in vio:
             rep.add(key, key.split('/')[0], dict(part='K', case=[case[0], case[1], case[2], case[3].hex(), case[4]]),
                     dict(cause=cause))
+    for framing in ('rtu', 'tcp', 'aa55'):
+        for kind in (('read', 'write', 'multi') if framing != 'aa55' else ('read',)):
+            for ka in (False, True):
+                nk += 1
+                for key, cause in run_repeat(framing, kind, ka):
+                    rep.add(key + f'/ka={int(ka)}', key.split('/')[0], dict(part='R', framing=framing, kind=kind, ka=ka), dict(cause=cause))
     cov = dict(evaluations=total + nk, distinct_nontrivial=nontriv,
                rule='conforming frames built by the independent codec: RTU/MBAP read answers for every count x every '
                     'uniform fill byte (x all unit addresses for counts 1 and 125, x trailing 0/1/2/7 bytes on RTU), '
@@ -215,6 +255,8 @@ def run(tier, seed, rep):
 
 
 def replay(r):
+    if r['part'] == 'R':
+        return dict(violations=run_repeat(r['framing'], r['kind'], r['ka']))
     if r['part'] == 'E':
         spec = r['spec']
         framing = r['framing']
